@@ -134,6 +134,18 @@ def many_table(ctx, rep, rule):
                 return vv[k]
             return None
         return ev
+    # the per-varbind work may live in a closure handed to an iterator consumer (for_each / try_for_each)
+    unit = None
+    if not setters:
+        for c in facts.closures_of(body.path):
+            cs = [b for b in c.calls() if (callee_path(b.term) or "").endswith("::set_item")]
+            feed = cells.closure_feed(facts, c) if cs else None
+            if cs and feed is not None and feed[0] is body:
+                unit = (c, flow.Prov(c), feed, cs)
+    if unit is not None:
+        _many_closure(ctx, rep, rule, body, prov, unit, cell, vcell, vv)
+        _many_pdus(rep, rule, body, cell)
+        return
     for k in ["Null"] + EXC_KINDS:
         if through_filter and cells.filter_verdict(facts, body, prov, vcell(k)) is False:
             # the varbinds are drawn through Iterator::filter and the closure rejects this kind: left out, iteration goes on
@@ -164,13 +176,7 @@ def many_table(ctx, rep, rule):
         kept = not through_filter or cells.filter_verdict(facts, body, prov, vcell(k)) is not False
         rep.check(rule, "OpGetMany::to_python|GetResponse/" + k, cells.has_call(tg, "::set_item") and kept,
                   "%s is stored" % k, "a varbind carrying %s never reaches the result dict" % k, body.loc(), obligation=True)
-    tg = cell("Report")
-    rep.check(rule, "OpGetMany::to_python|Report", outcome(tg) == {"err:AuthenticationFailed"} and not cells.has_call(tg, "::set_item"),
-              "Report -> SnmpAuthError", "Report yields %s" % sorted(outcome(tg)), body.loc(), obligation=True)
-    for k in ("GetRequest", "GetNextRequest", "GetBulkRequest"):
-        tg = cell(k)
-        rep.check(rule, "OpGetMany::to_python|" + k, outcome(tg) == {"err:InvalidPdu"}, "request PDU -> SnmpError",
-                  "%s yields %s" % (k, sorted(outcome(tg))), body.loc(), obligation=True)
+    _many_pdus(rep, rule, body, cell)
     # key and value come from the same varbind
     n = 0
     for b in body.calls():
@@ -185,6 +191,53 @@ def many_table(ctx, rep, rule):
                       body.loc(b.term["line"]))
     if n == 0:
         rep.missing(rule, "OpGetMany::to_python: dict.set_item")
+
+
+def _many_pdus(rep, rule, body, cell):
+    tg = cell("Report")
+    rep.check(rule, "OpGetMany::to_python|Report", outcome(tg) == {"err:AuthenticationFailed"} and not cells.has_call(tg, "::set_item"),
+              "Report -> SnmpAuthError", "Report yields %s" % sorted(outcome(tg)), body.loc(), obligation=True)
+    for k in ("GetRequest", "GetNextRequest", "GetBulkRequest"):
+        tg = cell(k)
+        rep.check(rule, "OpGetMany::to_python|" + k, outcome(tg) == {"err:InvalidPdu"}, "request PDU -> SnmpError",
+                  "%s yields %s" % (k, sorted(outcome(tg))), body.loc(), obligation=True)
+
+
+def _many_closure(ctx, rep, rule, body, prov, unit, cell, vcell, vv):
+    """get_many whose per-varbind work is a closure handed to an iterator consumer (`.filter(..).try_for_each(|var| ..)`)."""
+    facts = ctx.facts
+    c, cprov, feed, cs = unit
+    source = feed[3]
+    consumer = feed[2]
+    reach_main, _ = cells.feasible(body, prov, lambda t: vv and None)
+    for k in ["Null"] + EXC_KINDS:
+        key = "OpGetMany::to_python|GetResponse/" + k
+        if cells.filter_verdict_of(facts, source, vcell(k)) is False:
+            rep.ok(rule, key, "%s is dropped by the filter closure" % k, body.loc(), obligation=True)
+            rep.ok(rule, key + "/later-varbinds-still-read", "filter() continues with the next varbind", body.loc(), obligation=True)
+            continue
+        blocks, _ = cells.feasible(c, cprov, vcell(k))
+        tg = cells.tags(c, blocks)
+        rep.check(rule, key, not cells.has_call(tg, "::set_item"), "%s is left out of the dict" % k,
+                  "a varbind carrying %s is inserted into the result dict" % k, c.loc(), obligation=True)
+        rt = flow.Prov(c, only_blocks=blocks).local(0)
+        goes_on = rt[0] == "agg" and rt[2] in ("Ok", "Continue") or rt == ("const", True) or (rt[0] == "agg" and rt[1] == "tuple")
+        rep.check(rule, key + "/later-varbinds-still-read", goes_on, "the consumer goes on to the next varbind",
+                  "a %s value ends the processing of the reply: later values are missing from the dict" % k, c.loc(), obligation=True)
+    tgm = cell("GetResponse")
+    for k in DATA_KINDS:
+        blocks, _ = cells.feasible(c, cprov, vcell(k))
+        kept = cells.filter_verdict_of(facts, source, vcell(k)) is not False
+        rep.check(rule, "OpGetMany::to_python|GetResponse/" + k, cells.has_call(cells.tags(c, blocks), "::set_item") and kept and
+                  any(x[0] == "call" and x[1] == (callee_path(consumer.term) or "") for x in tgm),
+                  "%s is stored" % k, "a varbind carrying %s never reaches the result dict" % k, c.loc(), obligation=True)
+    for b in cs:
+        a = [cprov.operand(x) for x in b.term["args"]]
+        ok = len(a) == 3 and a[1][0] == "f" and a[1][2] == "oid" and a[2][0] == "f" and a[2][2] == "value" and a[1][1] == a[2][1]
+        rep.check(rule, "OpGetMany::to_python|key-value-same-varbind", ok, "dict[var.oid] = var.value",
+                  "set_item(%s)" % ", ".join(flow.fmt(x) for x in a[1:]), c.loc(b.term["line"]), obligation=True)
+    rep.check(rule, "OpGetMany::to_python|iterates-reply-varbinds", flow.mentions(source, lambda s: s[0] == "f" and s[2] == "vars"), "varbinds of the reply",
+              "iterates %s" % flow.fmt(source)[:120], body.loc(consumer.term["line"]))
 
 
 # expected table A.7 (DESIGN appendix): SnmpError variant -> exception constructor
